@@ -17,6 +17,8 @@ PROP = {  # commit subject fragment -> (property, id)
  "as_array()/as_object() of a raw OwnedLazyValue": ("C13", "F6"),
  "LazyValue::as_raw_number answers Some": ("C13", "F14"),
  "recursion limit of the serde deserializer never triggers": ("C01", "F1a"),
+ "publish-once caches dereference a null witness": ("C18", "F13"),
+ "loses the decoded-string race releases": ("C18", "F24"),
 }
 KNOWN = []
 out = []
